@@ -281,6 +281,10 @@ def run(pid, tier):
                 must_fire=MUST_FIRE, workers=V.NCPU, timeout=3000, xmx='24g')
     if mcst['violated']:
         raise V.Infra('the closed model violates its own invariants (specification error):\n' + mcst['out'][-3000:])
+    # the receiver's memory as libcoap has it (one message id per session and type): the model finds the double conclusion of KF_C07_OLD_DUPLICATE
+    neg = V.tlc('MC_Reliability', 'MC_Reliability_onedeep.cfg', workers=8, deque=False, timeout=900, xmx='12g')
+    if 'Invariant ConcludeOnceI is violated' not in neg['out']:
+        raise V.Infra('MC_Reliability sanity: the one-deep duplicate memory is NOT rejected by the model')
     # 2. executions of the real code
     g = Gen()
     suite_rel(g, tier, rnd)
